@@ -1077,12 +1077,19 @@ package bigbuff
 //@   requires func : this != nil && rt_kind(this) == 19
 //@   nopanic always : true
 //@   loop typesInOut>0 invariant ins : len(r) == n && n == rt_numin(this) && all(j, 0, rangeindex + 1, r[j] == rt_in(this, j) && r[j] != nil)
-//@   loop 0 invariant expand : rt_variadic(this) && variadic != nil && variadic == rt_elem(rt_in(this, rt_numin(this) - 1)) && len(in__0) >= rt_numin(this) - 1 && all(j, 0, rt_numin(this) - 1, in__0[j] == rt_in(this, j)) && all(j, rt_numin(this) - 1, len(in__0), in__0[j] == variadic) && all(j, 0, len(in__0), in__0[j] != nil)
+//@   loop 0 invariant expand : rt_variadic(this) && variadic != nil && variadic == rt_elem(rt_in(this, rt_numin(this) - 1)) && len(in__0) >= rt_numin(this) - 1 && (len(in__0) == rt_numin(this) - 1 || len(in__0) <= len(args)) && all(j, 0, rt_numin(this) - 1, in__0[j] == rt_in(this, j)) && all(j, rt_numin(this) - 1, len(in__0), in__0[j] == variadic) && all(j, 0, len(in__0), in__0[j] != nil)
 //@   loop 1 invariant checked : len(in__0) == len(args) && all(j, 0, rangeindex + 1, (args[j] != nil ==> rt_assignable(args[j], in__0[j])) && (args[j] == nil ==> rnilable(rt_kind(in__0[j]))))
 //@   ensures ok : ret1 == nil ==> len(ret0) == len(args) && all(i, 0, len(args), ret0[i] != nil && (args[i] != nil ==> rt_assignable(args[i], ret0[i])) && (args[i] == nil ==> rnilable(rt_kind(ret0[i]))))
 //@   ensures fixed : ret1 == nil && !rt_variadic(this) ==> len(args) == rt_numin(this) && all(i, 0, len(args), ret0[i] == rt_in(this, i))
 //@   ensures spread : ret1 == nil && rt_variadic(this) ==> len(args) >= rt_numin(this) - 1 && all(i, 0, rt_numin(this) - 1, ret0[i] == rt_in(this, i)) && all(i, rt_numin(this) - 1, len(args), ret0[i] == rt_elem(rt_in(this, rt_numin(this) - 1)))
 //@   ensures err : ret1 != nil ==> ret0 == nil
+//@   # completeness: an error means the call could not have been made — wrong count, or some argument that is not assignable
+//@   # to (an untyped nil: not representable by) the type of its position (the variadic element type from position numin-1 on)
+//@   ensures count_fixed : ret1 == nil || rt_variadic(this) || len(args) != rt_numin(this) || some(i, 0, len(args), (args[i] == nil && !rnilable(rt_kind(rt_in(this, i)))) || (args[i] != nil && !rt_assignable(args[i], rt_in(this, i))))
+//@   ensures count_variadic : ret1 == nil || !rt_variadic(this) || len(args) < rt_numin(this) - 1 || some(i, 0, len(args), (args[i] == nil && !rnilable(rt_kind(ite(i < rt_numin(this) - 1, rt_in(this, i), rt_elem(rt_in(this, rt_numin(this) - 1)))))) || (args[i] != nil && !rt_assignable(args[i], ite(i < rt_numin(this) - 1, rt_in(this, i), rt_elem(rt_in(this, rt_numin(this) - 1))))))
+//@   # the expansion loop adds one variadic slot per round until the counts match
+//@   loop 0 variant slots : len(args) - len(in__0)
+//@   loop 1 invariant shape : len(in__0) == len(args) && (!rt_variadic(this) ==> len(args) == rt_numin(this) && all(j, 0, len(in__0), in__0[j] == rt_in(this, j))) && (rt_variadic(this) ==> len(args) >= rt_numin(this) - 1 && all(j, 0, rt_numin(this) - 1, in__0[j] == rt_in(this, j)) && all(j, rt_numin(this) - 1, len(in__0), in__0[j] == rt_elem(rt_in(this, rt_numin(this) - 1))))
 
 //@ func NewCallable
 //@   props C19
@@ -1111,6 +1118,10 @@ package bigbuff
 //@   nopanic always : true
 //@   ensures failed : ret != nil ==> config.args == old(config.args) && config.results == old(config.results)
 //@   ensures thunk : ret == nil ==> config.args != nil && config.results == old(config.results)
+//@   # the argument thunk is a non-variadic func() (in...) built from exactly the resolved parameter types
+//@   at-call reflect.FuncOf#0 shape : len(arg0) == 0 && arg1 == ilast("resolveArgs", 0) && !arg2
+//@   at-call resolveArgs#0 types : arg0 == config.this && arg1 == ilast("typesArgs", 0)
+//@   at-call typesArgs#0 given : arg0 == args
 
 //@ func CallResults$1
 //@   props C19
@@ -1122,6 +1133,8 @@ package bigbuff
 //@   ensures failed : ret != nil ==> config.results == old(config.results) && config.args == old(config.args)
 //@   ensures validated : ret == nil ==> len(results) == rt_numout(config.this) && all(j, 0, len(results), results[j] != nil && rt_kind(rt_of(results[j])) == 22 && !rv_isnil(rv_of(results[j])) && rt_assignable(rt_out(config.this, j), rt_elem(rt_of(results[j]))))
 //@   ensures untouched : icalls("rvset") == 0
+//@   ensures installed : ret == nil ==> config.results != nil && config.args == old(config.args)
+//@   at-call reflect.FuncOf#0 shape : len(arg1) == 0 && !arg2 && len(arg0) == rt_numout(config.this) && all(j, 0, len(arg0), arg0[j] == rt_out(config.this, j))
 
 //@ func CallResultsSlice$1
 //@   props C19
@@ -1129,14 +1142,44 @@ package bigbuff
 //@   requires cfg : config != nil && config.this != nil && rt_kind(config.this) == 19
 //@   nopanic always : true
 //@   loop typesInOut>0 invariant outs : len(r) == n && n == rt_numout(config.this) && all(j, 0, rangeindex + 1, r[j] == rt_out(config.this, j) && r[j] != nil)
-//@   loop 0 invariant validated : len(out__0) == rt_numout(config.this) && elem != nil && all(j, 0, len(out__0), out__0[j] != nil)
+//@   loop 0 invariant validated : len(out__0) == rt_numout(config.this) && elem != nil && all(j, 0, len(out__0), out__0[j] != nil) && all(j, 0, rangeindex + 1, out__0[j] == elem)
 //@   ensures failed : ret != nil ==> config.results == old(config.results) && config.args == old(config.args)
+//@   ensures installed : ret == nil ==> config.results != nil && config.args == old(config.args)
+//@   # the result thunk takes one parameter of the slice's element type per result
+//@   at-call reflect.FuncOf#0 shape : len(arg1) == 0 && !arg2 && len(arg0) == rt_numout(config.this) && all(j, 0, len(arg0), arg0[j] == elem)
+
+//@ func CallResultsSlice$1$1
+//@   props C19
+//@   modular
+//@   maypanic
+//@   # every result is appended, in order, in one step; nothing is written when there are no results
+//@   at-call reflect.Append#0 all : len(arg1) == len(args) && len(args) != 0 && all(j, 0, len(args), arg1[j] == args[j])
+//@   ensures appended : len(args) != 0 ==> icalls("reflect.Append") == 1 && icalls("rvset") == 1
+//@   ensures idle : len(args) == 0 ==> icalls("reflect.Append") == 0 && icalls("rvset") == 0
+
+//@ func CallArgsRaw$1
+//@   props C19
+//@   modular
+//@   requires cfg : config != nil
+//@   ensures raw : ret == nil && config.args == args && config.results == old(config.results)
+
+//@ func CallResultsRaw$1
+//@   props C19
+//@   modular
+//@   requires cfg : config != nil
+//@   ensures raw : ret == nil && config.results == results && config.args == old(config.args)
 
 //@ func (*callable).Call
 //@   props C19
 //@   requires recv : x != nil
 //@   ensures invoked : ret == nil ==> icalls("(callableValue).Call") == 1
 //@   ensures rejected : ret != nil ==> icalls("(callableValue).Call") == 0
+//@   # an argument thunk, when given, is called exactly once and what it returns is what the function is called with;
+//@   # a result thunk, when given, is called exactly once with exactly what the function returned
+//@   ensures thunks : ret == nil ==> icalls("(reflect.Value).Call") == ite(args != nil, 1, 0) + ite(results != nil, 1, 0)
+//@   ensures valid_args : args != nil && rt_kind(rt_of(args)) != 19 ==> ret != nil
+//@   ensures valid_results : results != nil && rt_kind(rt_of(results)) != 19 ==> ret != nil
+//@   at-call (callableValue).Call#0 handover : args != nil ==> arg1 == ilast("(reflect.Value).Call", 0)
 
 //@ func (callableValue).Call
 //@   maypanic
